@@ -25,6 +25,7 @@ ENCODED = [
     "tensorly.decomposition._tucker.non_negative_tucker_hals",
     "tensorly.decomposition._parafac2._BroThesisLineSearch.line_step",
     "tensorly.decomposition._tr_als.tensor_ring_als",
+    "tensorly.decomposition._cmtf_als.coupled_matrix_tensor_3d_factorization",
     "tensorly.decomposition._cp.parafac",
     "tensorly.decomposition._cp.error_calc",
     "tensorly.decomposition._cp.initialize_cp",
@@ -43,7 +44,7 @@ BOUNDS = {
     "quick": "orders 2-4, mode sizes 2 (one 3), rank 1-2, K <= 3 sweeps (8 for the line-search branch), option sets listed in configs()",
     "thorough": "same plus rank 3 on 3x3x3 and 4 sweeps",
 }
-OUTSIDE = ["masked Tucker/HOOI (which quantity is 'the' error of a masked iterate -- observed entries or the tensor imputed from the previous iterate -- is not fixed by the property; observed while building: partial_tucker keeps the norm of the un-imputed tensor)", "more sweeps than K (covered inductively only because kernels are havoc'd)", "sizes > 3", "IEEE rounding except the explicit sqrt-argument obligation"]
+OUTSIDE = ["CMTF: the docstring writes the reported quantity with factors 1/2, the code reports it without; the check uses the code's form (documentation mismatch, not a value defect)", "masked Tucker/HOOI (which quantity is 'the' error of a masked iterate -- observed entries or the tensor imputed from the previous iterate -- is not fixed by the property; observed while building: partial_tucker keeps the norm of the un-imputed tensor)", "more sweeps than K (covered inductively only because kernels are havoc'd)", "sizes > 3", "IEEE rounding except the explicit sqrt-argument obligation"]
 TRUSTED = ["z3", "havoc/Givens kernel stubs", "sum-of-squares >= 0 lemmas (valid by construction)"]
 ASSUMPTIONS = ["data tensor is not identically zero (division by its norm)", "real arithmetic except the rounding-robustness obligation on sqrt arguments"]
 
@@ -127,6 +128,8 @@ def configs(tier):
     for shp, rank in [((2, 2, 2), [1, 2, 1, 1]), ((2, 2, 2), [2, 1, 2, 2]), ((2, 3, 2), [1, 1, 2, 1])] + ([] if q else [((2, 2, 2, 2), [1, 2, 1, 2, 1])]):
         for ls in ("lstsq", "normal_eq"):
             add("tr_als", shape=shp, rank=rank, ls=ls, K=2)
+    for R in (1, 2):
+        add("cmtf", shape=(2, 2, 2), cols=2, R=R, K=2 if q else 3, mode="fork")
     add("parafac2", rows=(2, 2), J=2, R=1, opt="linesearch", K=7, mode="fork")
     add("parafac", shape=(2, 2, 2), R=1, opt="linesearch", K=8, mode="fork")
     add("parafac", shape=(2, 2), R=2, opt="linesearch_normalize", K=8, mode="fork")
@@ -147,6 +150,8 @@ def harness(E, cfg):
         h_other(E, cfg)
     elif fam == "tr_als":
         h_tr_als(E, cfg)
+    elif fam == "cmtf":
+        h_cmtf(E, cfg)
     else:
         raise KeyError(fam)
 
@@ -666,3 +671,30 @@ def h_tr_als(E, cfg):
     if items:
         E.prove("returned_decomposition_is_last_iterate", [E.eq_arrays(a, b) for a, b in zip(list(res), items[-1][0])])
     _finite(E, "sqrt_arguments_rounding_robust")
+
+
+def h_cmtf(E, cfg):
+    """coupled matrix-tensor factorisation: every reported value is ||X - [[A,B,C]]||^2 + ||Y - A V^T||^2 of an iterate (the code's squared,
+    un-normalised form; the docstring writes the same quantity with factors 1/2 -- that discrepancy is documentation, see OUTSIDE), and the
+    last reported value belongs to the returned decomposition on BOTH exits (iteration cap and convergence; the tolerance is symbolic)."""
+    from vt import backend
+    import tensorly.decomposition._cp as _cp
+    from tensorly.decomposition._cmtf_als import coupled_matrix_tensor_3d_factorization as cmtf
+
+    shp, cols, R, K = cfg["shape"], cfg["cols"], cfg["R"], cfg["K"]
+    if E.symbolic:
+        backend.configure(lstsq="havoc", svd="havoc")
+        backend.patch(_cp, "svd_interface", stub_svd_interface)
+    X = E.real("X", shp)
+    Y = E.real("Y", (shp[0], cols))
+    tol = E.real("tol", pos=True)
+    tcp, mcp, errs = cmtf(np.array(X), np.array(Y), R, init="svd", n_iter_max=K, tol=tol)
+    w, fs = tcp
+    wm, fm = mcp
+    E.prove("n_errors", 1 <= len(errs) <= K)
+    Xo, Yo = np.asarray(X, dtype=object), np.asarray(Y, dtype=object)
+    M = dense_cp(w, fs)
+    N = dense_cp(wm, fm)
+    val = sq(Xo - M) + sq(Yo - N)
+    E.prove("last_reported_value_is_error_of_returned_decomposition", E.eq(errs[-1], val))
+    E.prove("coupled_factor_shared", E.eq_arrays(fs[0], fm[0]))
